@@ -195,6 +195,50 @@ def mutation_sequences(ctx, n):
         ctx.count("edit_sequences")
 
 
+def generated_mazes(ctx, n):
+    """mazes AS THE GENERATORS RETURN THEM (with generation_meta: visited_cells of one component, fully_connected flags) — the solver must
+    not trust that metadata: every ordered pair, including pairs inside a SECOND component; plus the same structures stored with
+    other element types (0/1 integers, nested lists), which LatticeMaze accepts. Judged by BFS on the array."""
+    from maze_dataset.generation.generators import LatticeMazeGenerators as LG
+    import maze_dataset.maze.lattice_maze as LM
+    for k in range(n):
+        g = ctx.rng.choice([3, 3, 4, 4, 5])
+        np.random.seed(ctx.rng.randrange(2**32)); pyrandom_seed = ctx.rng.randrange(2**32)
+        import random as _r; _r.seed(pyrandom_seed)
+        kind = k % 4
+        if kind == 0: m = LG.gen_percolation(np.array([g, g]), p=ctx.rng.choice([0.2, 0.3, 0.45]))
+        elif kind == 1: m = LG.gen_dfs_percolation(np.array([g, g]), p=ctx.rng.choice([0.1, 0.3]), accessible_cells=ctx.rng.randint(2, g * g - 1))
+        elif kind == 2: m = LG.gen_dfs(np.array([g, g]), accessible_cells=ctx.rng.randint(2, g * g - 1))
+        else: m = LG.gen_dfs(np.array([g, g]), max_tree_depth=ctx.rng.randint(1, g))
+        cl = np.array(m.connection_list, dtype=bool)
+        # also: a second component planted by hand where the generator left isolated cells (keeps the generator's metadata)
+        variants = [("generator maze with its generation_meta", m)]
+        dt = ctx.rng.choice(["int8", "uint8", "int64"])
+        try:
+            variants.append((f"same structure stored as {dt}", LM.LatticeMaze(connection_list=(cl.astype(int).tolist() if dt == "list" else cl.astype(dt)))))
+        except Exception:
+            pass
+        cells = list(itertools.product(range(g), range(g)))
+        for label, mz in variants:
+            for s in cells:
+                d = bfs(g, g, cl, s)
+                for e in cells:
+                    try:
+                        p = mz.find_shortest_path(s, e); got = len(p) - 1
+                    except ValueError:
+                        got = None
+                    except Exception as ex:
+                        got = f"{type(ex).__name__}"
+                    ctx.case(["generated", k, label[:9], list(s), list(e)], nontrivial=s != e)
+                    if got != d.get(e):
+                        ctx.violate(f"{g}x{g} {label} ({m.generation_meta.get('func_name')}): {s}->{e} gives {'ValueError' if got is None else got}, "
+                                    f"BFS on the connection structure says {d.get(e) if e in d else 'not connected'}",
+                                    dict(rows=g, cols=g, edges=[[int(a), int(b), int(c)] for a, b, c in zip(*np.nonzero(cl))], start=list(s), end=list(e), generated=label,
+                                         meta_keys=sorted(m.generation_meta)))
+                        return
+        ctx.count("generator_mazes_all_pairs")
+
+
 def big_jobs(rng, quick):
     """scale: grids far beyond the exhaustive range (a defect may need a long distance or a large coordinate to show)"""
     jobs = []
@@ -241,6 +285,7 @@ def run(ctx):
         jobs.append((r, c, cl, pairs, f"rnd{k}"))
     jobs += big_jobs(ctx.rng, ctx.quick)
     mutation_sequences(ctx, 60 if ctx.quick else 1500)
+    generated_mazes(ctx, 40 if ctx.quick else 600)
     ctx.count("mazes", len(jobs))
     if ctx.quick:
         results = [solve_all(cl, pairs) for r, c, cl, pairs, _ in jobs]
@@ -264,6 +309,8 @@ def run(ctx):
 
 def search(ctx):
     mutation_sequences(ctx, 300)
+    if ctx.violations: return
+    generated_mazes(ctx, 200)
     if ctx.violations: return
     for r, c, cl, pairs, tag in big_jobs(ctx.rng, False):
         if not judge(ctx, r, c, cl, solve_all(cl, pairs), tag):
